@@ -195,6 +195,9 @@ class DispatchModel:
             # a callback's nested operation would deliver events deferred by somebody else: the statements only
             # say these are delivered before the outermost operation returns, not when
             self.ambiguous = self.ambiguous or 'deferred events of a queued callback flushed by a nested assignment'
+        disc = set(o.discarded)
+        if not o.batch:
+            o.discarded.clear()
         while o.queue:
             queue, o.queue = o.queue, []
             order, per_w = [], {}
@@ -223,8 +226,8 @@ class DispatchModel:
                             src = last[(n, w.what)]
                             ev = MEvent(src.what, src.name, src.old, src.new, src.triggered)
                             ev.tdef = src.tdef
-                            ev.old_dc = counts[(n, w.what)] > 1 or n in o.discarded
-                            ev.new_dc = n in o.discarded
+                            ev.old_dc = counts[(n, w.what)] > 1 or n in disc
+                            ev.new_dc = n in disc
                             qevs = [e for ww, e, q, _ in queue if ww is w and e.name == n and q]
                             # a mixture of triggered and assigned events for one parameter: the reported type is open
                             ev.type_dc = len({e.triggered for e in qevs} | {src.triggered}) > 1
@@ -238,8 +241,6 @@ class DispatchModel:
                     self._execute(o, w, evs, optional)
             finally:
                 self.inflight.pop()
-        if not o.batch:
-            o.discarded.clear()
 
     # -- batching scopes ---------------------------------------------------------------------
     def update(self, oid, items):
